@@ -140,7 +140,11 @@ func (g *gen) domainText(d int) string {
 	case 1:
 		return "json`{\"a\": 1, \"b\": [2, 3]}`"
 	case 2:
-		return g.of("html", "huh", "sql") + "`> " + g.exprList(d-1, 1, 3) + "\n<a>text</a>\n`"
+		args := g.exprList(d-1, 1, 3)
+		if strings.Contains(args, "`") { // a backquote would end the literal
+			args = g.of("x", "&ret, 10", `"a", f(y)`)
+		}
+		return g.of("html", "huh", "sql") + "`> " + args + "\n<a>text</a>\n`"
 	case 3:
 		return g.of("re", "regexp", "xml") + "`^[a-z]+\\d*$`"
 	case 4:
@@ -203,9 +207,9 @@ func (g *gen) expr(d int) string {
 	case 18:
 		return "{" + g.of("", g.expr(d-1)+" ") + g.forPhrase(d-1, false) + "}"
 	case 19:
-		return g.of("f", "foo.bar", "xs.filter") + "(" + g.lambda(d) + ")"
+		return g.of("f", "foo.bar", "xs.filter") + "(" + g.lambda(d) + g.of("", "", " ", " /* c */", ",\n") + ")"
 	case 20:
-		return "f(" + g.expr(d-1) + ", " + g.lambda(d) + ")"
+		return "f(" + g.lambda(d) + g.of(", ", " , ", ",\n\t") + g.expr(d-1) + g.of("", " ") + ")"
 	case 21:
 		return g.of("f(x)", "os.open(s)", "a.b()", "foo", g.operand(d-1)) + g.of("!", "?", "?:"+g.of("0", `""`, "nil", "x"))
 	case 22:
@@ -272,6 +276,9 @@ func (g *gen) stmts(d, min, max int) string {
 	var b strings.Builder
 	for i := 0; i < n; i++ {
 		b.WriteString(g.stmt(d))
+		if g.pct(12) { // trailing blanks / comments: what a node's End must not swallow
+			b.WriteString(g.of(" ", "  // c", " /* c */", "\t", " // ${x}"))
+		}
 		b.WriteString("\n")
 	}
 	return b.String()
